@@ -109,3 +109,16 @@ M("c08-select-truncates", "C08", R, "        chan_start = round(float((fch1 - se
 M("c08-dedisperse-tstart", "C08", B, '                    "dm": dm,\n                    "nsamples": tim_len,\n                    "tstart": self.header.mjd_after_nsamps(start),', '                    "dm": dm,\n                    "nsamples": tim_len,\n                    "tstart": self.header.tstart,')
 M("c08-subband-fch1", "C08", B, "        new_fch1 = self.header.ftop + new_foff / 2", "        new_fch1 = self.header.fch1 + new_foff / 2", "sub-band centre off by half an input channel... outside span only for subfactor 1")
 M("c08-chans-fch1", "C08", B, '                                "fch1": self.header.fch1 + int(chan) * self.header.foff,', '                                "fch1": self.header.fch1 + int(batch_chans[0]) * self.header.foff,', "all files of a batch labelled with the first channel of the batch")
+
+# ---- C09
+P = "sigpyproc/params.py"
+M("c09-floor-not-round", "C09", P, "        delays = (delays / tsamp).round().astype(np.int32)\n    # 1D", "        delays = np.floor(delays / tsamp).astype(np.int32)\n    # 1D")
+M("c09-block-sign", "C09", BL, "            new_ar = kernels.roll_block(self.data, -delays)", "            new_ar = kernels.roll_block(self.data, delays)")
+M("c09-dm-constant", "C09", P, "DM_CONSTANT_LK = 4.148808e3", "DM_CONSTANT_LK = 4.15e3")
+M("c09-fcenter", "C09", H, "        return self.ftop + 0.5 * self.foff * self.nchans", "        return self.ftop + 0.5 * self.foff * (self.nchans - 1)")
+M("c09-valid-start-col", "C09", K, "        res[irow, :] = arr[irow, start_col - shift : end_col - shift]", "        res[irow, :] = arr[irow, max_pos_shift - shift - (min_neg_shift < 0 and max_pos_shift > 0) : end_col - shift - (min_neg_shift < 0 and max_pos_shift > 0)]",
+  "valid window off by one only when shifts of both signs are present")
+M("c09-dmt-sign", "C09", BL, "            new_ar = kernels.dmt_block(self.data, -dm_delays)", "            new_ar = kernels.dmt_block(self.data, dm_delays)", "original F09a (wrapping variant only)")
+M("c09-rdb-short-read", "C09", R, "            range(first_sample, last_sample),", "            range(first_sample, first_sample + nsamps),", "original F09c")
+M("c09-roll-mod", "C09", K, "        shift = shifts[irow] % ncols\n        if shift == 0:", "        shift = abs(shifts[irow]) % ncols\n        if shift == 0:", "negative shifts rolled the wrong way")
+M("c09-ref-min-max", "C09", H, '            fch_ref = float(getattr(self, f"f{ref_freq}"))', '            fch_ref = float(getattr(self, f"f{ref_freq}")) if ref_freq != "min" or self.foff < 0 else float(self.fmax)', "ref 'min' resolves to the top channel for ascending bands")
